@@ -124,7 +124,7 @@ theorem realPath_dest_lt {sims : List SimCfg} {s t : Sid} {p : List Sid} {d : TI
     apply Classical.byContradiction
     intro hn
     have : sims.getD t {} = {} := by
-      rw [List.getD_eq_getElem?_getD, List.getElem?_eq_none (by omega)]; rfl
+      rw [List.getD_eq_getElem?_getD, List.getElem?_eq_none (Nat.le_of_not_lt hn)]; rfl
     rw [this] at he
     cases he
   | cons _ _ ih => exact ih
@@ -149,7 +149,7 @@ theorem le?_sameShape {a b : TI} (h : C08.SameShape a b) : TI.le? a b = some (de
 
 /-- what `update_min` decides on two delays of one shape -/
 theorem updateMin?_keep {a b : TI} (h : C08.SameShape a b) (hu : TI.updateMin? (some a) b = some none) : TI.le a b := by
-  unfold TI.updateMin? at hu
+  simp only [TI.updateMin?] at hu
   rw [le?_sameShape h] at hu
   simp only [Option.map_some, Option.some.injEq] at hu
   split at hu
@@ -158,7 +158,7 @@ theorem updateMin?_keep {a b : TI} (h : C08.SameShape a b) (hu : TI.updateMin? (
   · cases hu
 
 theorem updateMin?_replace {a b v : TI} (h : C08.SameShape a b) (hu : TI.updateMin? (some a) b = some (some v)) : TI.le b a := by
-  unfold TI.updateMin? at hu
+  simp only [TI.updateMin?] at hu
   rw [le?_sameShape h] at hu
   simp only [Option.map_some, Option.some.injEq] at hu
   split at hu
@@ -166,5 +166,194 @@ theorem updateMin?_replace {a b v : TI} (h : C08.SameShape a b) (hu : TI.updateM
   · rename_i hle
     have : ¬ a.tiers ≤ b.tiers := by simpa using hle
     exact ⟨h.2.1.symm, h.2.2.symm, h.1.symm, TT.le_of_lt (TT.not_le.mp this)⟩
+
+/-! ### one relaxation, as cases -/
+
+/-- the body of the two inner loops for one connection `sd` into `mid` and one row entry `e` -/
+def relaxOne (mid : Sid) (sd : Sid × TI) (st : CycState) (e : Sid × TI × List Sid) : Except ClosErr CycState :=
+  match st.descs.get? mid e.1 with
+  | none => .ok st
+  | some (midToDest, path) =>
+    match TI.add? sd.2 midToDest with
+    | none => .error .assertion
+    | some s2d =>
+      match TI.updateMin? ((st.descs.get? sd.1 e.1).map (·.1)) s2d with
+      | none => .error .assertion
+      | some none => .ok st
+      | some (some v) => .ok { descs := st.descs.set sd.1 e.1 (v, sd.1 :: path), dirty := insertDirty st.dirty sd.1 }
+
+theorem cycRelax_eq (sims : List SimCfg) (st : CycState) (mid : Sid) :
+    cycRelax sims st mid =
+      (sims.getD mid {}).inputDelays.foldlM (fun st sd => (st.descs.row mid).foldlM (relaxOne mid sd) st) st := rfl
+
+/-- closedness of the table at one connection `s → mid` (delay `w`) for one destination -/
+def DestClosed (d : Descs) (mid s : Sid) (w : TI) (dest : Sid) : Prop :=
+  ∀ m, d.get? mid dest = some m → ∃ e, d.get? s dest = some e ∧ TI.le e.1 (TI.add w m.1)
+
+def PairClosed (d : Descs) (mid : Sid) (sd : Sid × TI) : Prop := ∀ dest, DestClosed d mid sd.1 sd.2 dest
+
+def ClosedAt (sims : List SimCfg) (d : Descs) (mid : Sid) : Prop :=
+  ∀ sd, sd ∈ (sims.getD mid {}).inputDelays → PairClosed d mid sd
+
+/-- every connection is in the table, with at most its own delay -/
+def EdgeLe (sims : List SimCfg) (d : Descs) : Prop :=
+  ∀ t s w, (s, w) ∈ (sims.getD t {}).inputDelays → ∃ e, d.get? s t = some e ∧ TI.le e.1 w
+
+/-- entries only appear or decrease -/
+def Below (d' d : Descs) : Prop := ∀ s t e, d.get? s t = some e → ∃ e', d'.get? s t = some e' ∧ TI.le e'.1 e.1
+
+theorem Below.refl (d : Descs) : Below d d := fun _ _ e h => ⟨e, h, TI.le_refl _⟩
+
+theorem Below.trans {a b c : Descs} (h1 : Below a b) (h2 : Below b c) : Below a c := by
+  intro s t e he
+  obtain ⟨e1, h1e, hle1⟩ := h2 s t e he
+  obtain ⟨e2, h2e, hle2⟩ := h1 s t e1 h1e
+  exact ⟨e2, h2e, TI.le_trans hle2 hle1⟩
+
+theorem below_set {d : Descs} {s t : Sid} {v : TI × List Sid} (h : ∀ a, d.get? s t = some a → TI.le v.1 a.1) :
+    Below (d.set s t v) d := by
+  intro s' t' e he
+  by_cases hk : (s', t') = (s, t)
+  · cases hk
+    exact ⟨v, Descs.get?_set_same _ _ _ _, h e he⟩
+  · exact ⟨e, by rw [Descs.get?_set_ne _ _ _ _ _ _ hk]; exact he, TI.le_refl _⟩
+
+/-- the two things one inner iteration can do: nothing (and then the table is closed at this connection and
+destination), or store the smaller sum and mark the source dirty -/
+theorem relaxOne_cases {sims : List SimCfg} (hS : Shaped sims) (hU : Uniform sims) {mid : Sid} {sd : Sid × TI}
+    (hsd : sd ∈ (sims.getD mid {}).inputDelays) {c c' : CycState} {e : Sid × TI × List Sid}
+    (hreal : AllReal sims c.descs) (hg : relaxOne mid sd c e = .ok c') :
+    (c' = c ∧ DestClosed c.descs mid sd.1 sd.2 e.1) ∨
+    (∃ m path, c.descs.get? mid e.1 = some (m, path) ∧
+      c' = { descs := c.descs.set sd.1 e.1 (TI.add sd.2 m, sd.1 :: path), dirty := insertDirty c.dirty sd.1 } ∧
+      RealPath sims sd.1 e.1 (sd.1 :: path) (TI.add sd.2 m) ∧
+      ∀ a, c.descs.get? sd.1 e.1 = some a → TI.le (TI.add sd.2 m) a.1) := by
+  unfold relaxOne at hg
+  cases hget : c.descs.get? mid e.1 with
+  | none =>
+    rw [hget] at hg
+    cases hg
+    left
+    exact ⟨rfl, fun m hm => by rw [hget] at hm; cases hm⟩
+  | some v =>
+    obtain ⟨m, path⟩ := v
+    rw [hget] at hg
+    simp only at hg
+    cases hadd : TI.add? sd.2 m with
+    | none => rw [hadd] at hg; cases hg
+    | some s2d =>
+      rw [hadd] at hg
+      simp only at hg
+      have hs : s2d = TI.add sd.2 m := add?_value hadd
+      subst hs
+      have hmreal := hreal _ (Descs.get?_mem hget)
+      simp only at hmreal
+      have hnew : RealPath sims sd.1 e.1 (sd.1 :: path) (TI.add sd.2 m) := RealPath.cons hsd hmreal
+      cases hold : c.descs.get? sd.1 e.1 with
+      | none =>
+        rw [hold] at hg
+        simp only [Option.map_none, TI.updateMin?] at hg
+        cases hg
+        right
+        exact ⟨m, path, rfl, rfl, hnew, fun a ha => by cases ha⟩
+      | some a =>
+        rw [hold] at hg
+        simp only [Option.map_some] at hg
+        have hareal := hreal _ (Descs.get?_mem hold)
+        simp only at hareal
+        have hshape : C08.SameShape a.1 (TI.add sd.2 m) := realPath_sameShape hS hU hareal hnew
+        cases hup : TI.updateMin? (some a.1) (TI.add sd.2 m) with
+        | none => rw [hup] at hg; cases hg
+        | some r =>
+          rw [hup] at hg
+          cases r with
+          | none =>
+            cases hg
+            left
+            refine ⟨rfl, fun m' hm' => ?_⟩
+            rw [hget] at hm'
+            cases hm'
+            exact ⟨a, hold, updateMin?_keep hshape hup⟩
+          | some v =>
+            simp only at hg
+            cases hg
+            have hv : v = TI.add sd.2 m := updateMin?_value hup
+            subst hv
+            right
+            refine ⟨m, path, rfl, rfl, hnew, fun a' ha' => ?_⟩
+            cases ha'
+            exact updateMin?_replace hshape hup
+
+/-! ### invariants of one relaxation -/
+
+theorem mem_insertDirty {l : List Sid} {s x : Sid} : x ∈ insertDirty l s ↔ x ∈ l ∨ x = s := by
+  unfold insertDirty
+  split
+  · rename_i h
+    have hs : s ∈ l := by simpa using h
+    constructor
+    · exact Or.inl
+    · rintro (h | h)
+      · exact h
+      · exact h ▸ hs
+  · simp
+
+theorem destClosed_mono {d d' : Descs} {mid s : Sid} {w : TI} {dest : Sid} (hrow : ∀ t, d'.get? mid t = d.get? mid t)
+    (hb : Below d' d) (h : DestClosed d mid s w dest) : DestClosed d' mid s w dest := by
+  intro m hm
+  rw [hrow] at hm
+  obtain ⟨e, he, hle⟩ := h m hm
+  obtain ⟨e', he', hle'⟩ := hb _ _ _ he
+  exact ⟨e', he', TI.le_trans hle' hle⟩
+
+theorem edgeLe_below {sims : List SimCfg} {d d' : Descs} (hb : Below d' d) (h : EdgeLe sims d) : EdgeLe sims d' := by
+  intro t s w hw
+  obtain ⟨e, he, hle⟩ := h t s w hw
+  obtain ⟨e', he', hle'⟩ := hb _ _ _ he
+  exact ⟨e', he', TI.le_trans hle' hle⟩
+
+/-- what holds while the connections into the popped simulator `mid` are relaxed; `d0` is the table and `dirty0` the
+worklist when the relaxation started -/
+structure RInv (sims : List SimCfg) (mid : Sid) (d0 : Descs) (dirty0 : List Sid) (c : CycState) : Prop where
+  real : AllReal sims c.descs
+  edge : EdgeLe sims c.descs
+  mono : ∀ x, x ∈ dirty0 → x ∈ c.dirty
+  closed : ∀ x, x ∉ c.dirty → x ≠ mid → ClosedAt sims c.descs x
+  row : mid ∉ c.dirty → ∀ dest, c.descs.get? mid dest = d0.get? mid dest
+
+/-- storing a smaller delay for (src, dest) and marking src dirty keeps the invariant -/
+theorem rinv_set {sims : List SimCfg} {mid : Sid} {d0 : Descs} {dirty0 : List Sid} {c : CycState} (h : RInv sims mid d0 dirty0 c)
+    {src dest : Sid} {v : TI × List Sid} (hv : RealPath sims src dest v.2 v.1)
+    (hle : ∀ a, c.descs.get? src dest = some a → TI.le v.1 a.1) :
+    RInv sims mid d0 dirty0 { descs := c.descs.set src dest v, dirty := insertDirty c.dirty src } := by
+  have hb : Below (c.descs.set src dest v) c.descs := below_set hle
+  refine ⟨allReal_set h.real hv, edgeLe_below hb h.edge, fun x hx => mem_insertDirty.mpr (Or.inl (h.mono x hx)), ?_, ?_⟩
+  · intro x hx hxm sd hsd dest'
+    simp only [mem_insertDirty, not_or] at hx
+    have hrow : ∀ t, (c.descs.set src dest v).get? x t = c.descs.get? x t := fun t =>
+      Descs.get?_set_ne _ _ _ _ _ _ (by intro e; cases e; exact hx.2 rfl)
+    exact destClosed_mono hrow hb (h.closed x hx.1 hxm sd hsd dest')
+  · intro hm dest'
+    simp only [mem_insertDirty, not_or] at hm
+    rw [Descs.get?_set_ne _ _ _ _ _ _ (by intro e; cases e; exact hm.2 rfl)]
+    exact h.row hm.1 dest'
+
+/-- invariants of a monadic fold that can fail, with the list of processed elements -/
+theorem foldlM_inv_done {α β ε : Type} (P : List α → β → Prop) (f : β → α → Except ε β) :
+    ∀ (l done : List α) (b0 b : β), P done b0 →
+      (∀ done b a b', a ∈ l → P done b → f b a = .ok b' → P (a :: done) b') →
+      l.foldlM f b0 = .ok b → P (l.reverse ++ done) b
+  | [], done, b0, b, h0, _, h => by
+    simp only [List.foldlM_nil] at h
+    cases h; simpa using h0
+  | a :: l, done, b0, b, h0, hstep, h => by
+    simp only [List.foldlM_cons] at h
+    cases hf : f b0 a with
+    | error e => rw [hf] at h; cases h
+    | ok b1 =>
+      rw [hf] at h
+      have := foldlM_inv_done P f l (a :: done) b1 b (hstep done b0 a b1 List.mem_cons_self h0 hf)
+        (fun d b a' b' ha' => hstep d b a' b' (List.mem_cons_of_mem _ ha')) h
+      simpa [List.append_assoc] using this
 
 end Mosaik
